@@ -160,6 +160,7 @@ def sweep(chk, exe, listfile, fm, stats, stride=1, rich=True):
 
 def run(tier):
     chk = vlib.Check(PID, tier, 'model_checking')
+    chk.soft_guards_when_cut = False          # quick is deadline-bounded by design; the guards below hold long before any cut
     vlib.build('plain')
     files = zoo.standard_files()
     files.update(zoo.large_files())          # links > CHUNKSIZE: quick explores them to depth 1 and sweeps with a stride
